@@ -120,12 +120,17 @@ class C04(Prop):
                   "stub": ["solver in TAGGED runs", "sys.stdout"]}
 
     def generate(self, rng, tier, idx):
-        case = ["order", "order", "order-value", "extension"][idx % 4]
-        b = templates.build_model(rng, weights=W04, n=rng.choice([1, 2, 2, 3]),
+        case = ["order", "order", "order-value", "extension", "order-resolve"][idx % 5]
+        w = W04
+        if case == "order-resolve":
+            # ConvexQG / RsiEb record a stationary point of their own *during* a solve when none is declared yet:
+            # with an early solve the recorded samples themselves differ, which is outside the statement
+            w = {k: v for k, v in W04.items() if k != "gd_qg"}
+        b = templates.build_model(rng, weights=w, n=rng.choice([1, 2, 2, 3]),
                                   decorations=[] if rng.random() < 0.7 else None)
         info = {k: v for k, v in b.info.items() if isinstance(v, (str, int, float))}
         info["P"] = b.P
-        mode = "tagged" if case == "order" else "real"
+        mode = "tagged" if case in ("order", "order-resolve") else "real"
         s = draw_solve(rng, b.P, "tau", peer_mode=mode, allow_mosek=False)
         s["cfg"]["mode"] = "dual"
         s["cfg"]["verbose"] = 0
@@ -133,7 +138,22 @@ class C04(Prop):
         s["peer"]["force_solver"] = True
         plan = {"case": case, "base": list(b.ops), "solve": s, "info": info,
                 "tag": "%s/%s/%s" % (case, b.info.get("template"), b.info.get("cls"))}
-        if case in ("order", "order-value"):
+        if case == "order-resolve":
+            # the same declarations interleaved with an earlier solve: solve after a prefix of the (shuffled)
+            # program, declare the rest, solve again; the last solve must see the same class rows as the program
+            # that declares everything and solves once
+            sched = shuffle_schedule(b.ops, rng)
+            cut = rng.randrange(max(1, len(sched) // 3), len(sched))
+            early = copy.deepcopy(s)
+            early["out"] = "tau_early"
+            early["nojudge"] = True
+            plan["alt"] = sched[:cut] + [early] + sched[cut:]
+            # more samples of the main function (and of a linear operator's transpose) after the early solve
+            plan["alt2"] = None
+            plan["ext_kind"] = None
+            plan["case"] = "order"
+            plan["tag"] = plan["tag"].replace("order-resolve", "order+early-solve")
+        elif case in ("order", "order-value"):
             plan["alt"] = shuffle_schedule(b.ops, rng)
             plan["alt2"] = shuffle_schedule(b.ops, rng)
             plan["ext_kind"] = None
